@@ -98,6 +98,13 @@ fn apply_engine(op: &Op) {
     }
 }
 
+/// the same registration made by another thread (spawned and joined): whatever the engine
+/// keeps per thread must not decide what a later evaluation on THIS thread sees
+fn apply_engine_on_other_thread(op: &Op) {
+    let op = op.clone();
+    std::thread::spawn(move || apply_engine(&op)).join().expect("registration thread");
+}
+
 fn apply_model(op: &Op, w: &mut World) {
     match op {
         Op::Func(n, t) => {
@@ -197,7 +204,7 @@ fn model_ctx(kind: &str) -> MCtx {
 }
 
 /// run the battery; returns the number of probes that disagreed (each reported)
-fn probe(world: &World, hist: &str, after: &str, out: &mut WorkerOut) -> String {
+fn probe(world: &World, stage: &str, hist: &str, after: &str, out: &mut WorkerOut) -> String {
     let mut fingerprint = String::new();
     for p in PROBES {
         for ck in CONTEXTS {
@@ -206,7 +213,7 @@ fn probe(world: &World, hist: &str, after: &str, out: &mut WorkerOut) -> String 
             }
             out.evals += 1;
             out.count("validated", 1);
-            let case = format!("histories|{}", hist);
+            let case = format!("{}|{}", stage, hist);
             let m_ast = parse::parse(p, &world.ops);
             let e = guarded(|| {
                 let t = parse_expression(p).map_err(|e| format!("parse: {:?}", e))?;
@@ -215,6 +222,13 @@ fn probe(world: &World, hist: &str, after: &str, out: &mut WorkerOut) -> String 
                 let rendered = t.expr();
                 let again = parse_expression(&rendered).map(|t2| conv(&t2) == ast).unwrap_or(false);
                 let v = t.exec(&mut engine_ctx(ck)).map_err(|e| format!("{:?}", e));
+                // the one-call entry point must agree with parse + exec (same text, equal context)
+                let v2 = expression_engine::execute(p, engine_ctx(ck)).map_err(|e| format!("{:?}", e));
+                let v = match (&v, &v2) {
+                    (Ok(a), Ok(b)) if a == b => v,
+                    (Err(_), Err(_)) => v,
+                    _ => return Err(format!("execute-differs-from-parse-exec: exec {:?} execute {:?}", v.as_ref().map(show_value), v2.as_ref().map(show_value))),
+                };
                 Ok((ast, again, v))
             });
             let key_tail = format!("{}:probe={}", after, p.split_whitespace().collect::<Vec<_>>().join("_"));
@@ -229,6 +243,10 @@ fn probe(world: &World, hist: &str, after: &str, out: &mut WorkerOut) -> String 
                 }
                 (Err(me), Res::Ok((ast, _, _))) => {
                     out.fail(format!("parse:accepted:{}", key_tail), case, format!("probe {:?} ({}): model rejects ({:?}), engine parses {:?}", p, ck, me, ast));
+                    fingerprint.push('?');
+                }
+                (Ok(_), Res::Err(err)) if err.starts_with("execute-differs-from-parse-exec") => {
+                    out.fail(format!("dispatch:execute-entry-point:{}:{}", ck, key_tail), case, format!("probe {:?} ({}): {}", p, ck, err));
                     fingerprint.push('?');
                 }
                 (Ok(ma), Res::Err(err)) => {
@@ -296,6 +314,10 @@ pub struct Histories {
 impl Histories {
     pub fn new(tier: Tier) -> Histories {
         Histories { n_ops: op_alphabet().len() as u64, full_len: tier.pick(2, 3), long_len: tier.pick(3, 4) }
+    }
+    /// the histories that are also run with every registration made on another thread
+    pub fn cross_thread(tier: Tier) -> Histories {
+        Histories { n_ops: op_alphabet().len() as u64, full_len: tier.pick(2, 2), long_len: tier.pick(2, 3) }
     }
     fn masks(&self, n: u32) -> Vec<u32> {
         if n <= self.full_len {
@@ -444,6 +466,7 @@ impl Prop for C08 {
             stages: vec![
                 Stage { name: "histories".into(), len: nh, chunk: 1, timeout: Duration::from_secs(60), what: "registration history with probe batteries, one fresh process each".into() },
                 Stage { name: "tables".into(), len: nt, chunk: 1, timeout: Duration::from_secs(120), what: "operator table with one or two new infix operators, one process each".into() },
+                Stage { name: "histories-other-thread".into(), len: Histories::cross_thread(tier).len(), chunk: 1, timeout: Duration::from_secs(60), what: "registration histories in which every register_* call is made by another (spawned and joined) thread while all probes run on the main thread, one fresh process each".into() },
             ],
             rule: format!(
                 "(a) histories over {} registration operations (new and built-in function names with two tags, new word / built-in / new symbolic prefix operators, an infix word operator at 111 LEFT, 111 RIGHT and 125 LEFT, overrides of '+' and '/' with other precedence / associativity, postfix operators): every history of <= {} operations with every placement of probe batteries (before first use, between registrations, after), and every history of {} operations with 4 placements; each in a fresh process. \
@@ -466,8 +489,9 @@ impl Prop for C08 {
         }
     }
     fn run(&self, tier: Tier, stage: usize, a: u64, b: u64, out: &mut WorkerOut) {
-        if stage == 0 {
-            let hs = Histories::new(tier);
+        if stage == 0 || stage == 2 {
+            let hs = if stage == 0 { Histories::new(tier) } else { Histories::cross_thread(tier) };
+            let stage_name = if stage == 0 { "histories" } else { "histories-other-thread" };
             for i in a..b {
                 out.idx = Some(i);
                 let h = &hs.get(i);
@@ -477,10 +501,14 @@ impl Prop for C08 {
                 let mut fp = String::new();
                 for k in 0..=h.ops.len() {
                     if h.mask & (1 << k) != 0 || k == h.ops.len() {
-                        fp = probe(&world, &text, &after, out);
+                        fp = probe(&world, stage_name, &text, &after, out);
                     }
                     if k < h.ops.len() {
-                        apply_engine(&h.ops[k]);
+                        if stage == 2 {
+                            apply_engine_on_other_thread(&h.ops[k]);
+                        } else {
+                            apply_engine(&h.ops[k]);
+                        }
                         apply_model(&h.ops[k], &mut world);
                         after = h.ops[k].kind();
                         out.count("transitions", 1);
@@ -493,7 +521,7 @@ impl Prop for C08 {
                 names.sort();
                 want.sort();
                 if names != want {
-                    out.fail("registry:infix-names", format!("histories|{}", text), format!("engine {:?} model {:?}", names, want));
+                    out.fail("registry:infix-names", format!("{}|{}", stage_name, text), format!("engine {:?} model {:?}", names, want));
                 }
                 out.nontrivial.insert(hash64(&fp));
                 out.count("states", 1);
@@ -514,6 +542,8 @@ impl Prop for C08 {
     fn case_text(&self, tier: Tier, stage: usize, i: u64) -> String {
         if stage == 0 {
             Histories::new(tier).get(i).text()
+        } else if stage == 2 {
+            Histories::cross_thread(tier).get(i).text()
         } else {
             format!("{:?}", tables()[i as usize].ops)
         }
